@@ -391,6 +391,10 @@ func (e *Engine) specTypeExpr(pkg *types.Package, x ast.Expr) types.Type {
 		}
 	case *ast.ParenExpr:
 		return e.specTypeExpr(pkg, n.X)
+	case *ast.InterfaceType:
+		if n.Methods == nil || len(n.Methods.List) == 0 {
+			return types.NewInterfaceType(nil, nil).Complete()
+		}
 	}
 	e.errorf("cannot resolve type %s", types.ExprString(x))
 	return nil
